@@ -29,7 +29,7 @@ func (g *GenericPlanner) WrapProcess(ctx *shared.PlannerContext,
 			}()
 		}
 		defer close(out)
-		defer func() { shared.TamePanic(out) }()
+		defer shared.TamePanic(out)
 		for entries := range _in {
 			for i := range entries {
 				err := ops.OnEntry(&entries[i])
